@@ -45,7 +45,10 @@ def gen(rng):
         k = rng.choice(TG.MALFORMED)
         kinds.append(k)
         tdir = rng.choice(used_dirs if rng.random() < 0.8 else [l[0] for l in locs])
-        TG.add_malformed(rng, extra, tdir, k, str(i))
+        # an undated neighbour sometimes claims the very location of a well-formed entry
+        # (an older generation of the same file whose info lost its date)
+        pv = TG.pct(rng.choice(made)[2]) if (made and k in ('nodate', 'baddate') and rng.random() < 0.5) else None
+        TG.add_malformed(rng, extra, tdir, k, str(i), path_value=pv)
     reader = rng.choice(['list', 'restore', 'restore', 'rm', 'empty'])
     stdin = ''
     if reader == 'list':
@@ -88,7 +91,8 @@ def run_reader(sim, case, with_extra, st, target=None):
     if posixpath.basename(spec['argv'][0]) == 'trash-restore' and target is not None:
         def user(out):
             items = OR.parse_restore_items(out) or []
-            cnd = [i for i, _d, p in items if p == target]
+            # the well-formed target is dated; an undated neighbour may claim the same location
+            cnd = [i for i, d, p in items if p == target and d != 'None']
             return ('%d\n' % cnd[0]) if cnd else '\n'
         kw['stdin_fn'] = user
     r = sim.run(spec, **kw)
